@@ -551,6 +551,8 @@ struct Mon {
     int64_t T;
     Civ from, to;
   };
+  static int64_t key_of(const Step& s) { return s.T; }
+  static int64_t key_of(int64_t t) { return t; }
   static bool same_tr(const cctz::time_zone::civil_transition& tr, const Step& s) {
     return from_cs(tr.from) == s.from && from_cs(tr.to) == s.to;
   }
@@ -628,8 +630,28 @@ struct Mon {
     i128 upto = fw.empty() ? orc::I64MIN : (i128)fw.back().T;
     if (!Z.f.times.empty()) upto = std::max(upto, (i128)Z.f.times.back());
     std::vector<orc::Change> ch;
-    Z.changes(orc::I64MIN + 1, upto, &ch);
-    {
+    // class S-dst0 (type 0 is a daylight type in use): which type precedes the first transition is a convention of
+    // old readers, not something the oracle takes from the bytes, so there only the library's own consistency is
+    // checked (chains, point queries, no reported no-op), not the oracle's list
+    const bool self_only = ze.cls == "S-dst0";
+    if (self_only) ctx.stat("C11.zones_checked_for_self_consistency_only");
+    if (!self_only) Z.changes(orc::I64MIN + 1, upto, &ch);
+    if (self_only) {
+      // every recorded entry across which lookup() changes is in the chain (the entry at -2^59 is never reported)
+      for (int64_t t : Z.f.times) {
+        if (t <= -((int64_t)1 << 59)) continue;
+        auto a = tz.lookup(mk(t - 1)), b = tz.lookup(mk(t));
+        ctx.stat("C11.evaluations");
+        bool changes = !(a.offset == b.offset && a.is_dst == b.is_dst && std::string(a.abbr) == std::string(b.abbr));
+        bool reported = std::binary_search(fw.begin(), fw.end(), t, [](const auto& x, const auto& y) { return key_of(x) < key_of(y); });
+        if (changes != reported) {
+          ctx.viol("C11", std::string(changes ? "missing-transition:" : "noop-reported:") + ze.cls + ":self-consistency",
+                   "zone=" + zid() + " recorded entry at T=" + std::to_string(t) + " lookup " + (changes ? "changes" : "does not change") +
+                       " across it but it is " + (reported ? "reported" : "not reported"));
+        }
+      }
+    }
+    if (!self_only) {
       size_t n = std::max(ch.size(), fw.size());
       for (size_t i = 0; i < n; ++i) {
         if (i >= ch.size()) {
